@@ -79,6 +79,12 @@ def check_sdl(ctx: Ctx, job):
                 stream.append(o)
                 if o[0] != "item":
                     break
+            if stream and stream[-1][0] == "stop":
+                # the state of the FINISHED iterator (between StopIteration and the next iter()); key = -position
+                s.begin_op()
+                sd = loader.state_dict()
+                live[-len(stream)] = sd
+                image[-len(stream)] = canon(copy.deepcopy(sd))
         # 1. not altered by later iteration of the producer
         for p, sd in live.items():
             if canon(sd) != image[p]:
@@ -88,8 +94,13 @@ def check_sdl(ctx: Ctx, job):
         gc.collect()
     # 2. loading + iterating does not alter it; 3. the same object loaded twice gives the same continuation
     r = random.Random(seed)
-    for p in r.sample(sorted(live), min(3, len(live))):
-        sd = live[p]
+    # (with RNG-driven items a finished state resumes into a NEW epoch whose worker seeds come from the ambient RNG)
+    ends = [k for k in live if k < 0] if cfg["kind"] != "map_rng" else []
+    pool = sorted(k for k in live if k >= 0)
+    picks = r.sample(pool, min(3, len(pool))) + (r.sample(ends, 1) if ends else [])
+    for key in picks:
+        sd = live[key]
+        p = abs(key)
         conts = []
         for rep in range(2):
             with vsched.Session(seed + 1 + rep) as s:
@@ -103,10 +114,10 @@ def check_sdl(ctx: Ctx, job):
                 del l2
                 gc.collect()
             conts.append(cont)
-            if canon(sd) != image[p]:
-                ctx.fail("C08:altered_by_load", job, f"the dict taken at position {p} was altered by loading it and iterating (load #{rep+1}): {sdl_ko._diff_sd(canon(sd), image[p])}")
+            if canon(sd) != image[key]:
+                ctx.fail("C08:altered_by_load", job, f"the dict taken at position {key} was altered by loading it and iterating (load #{rep+1}): {sdl_ko._diff_sd(canon(sd), image[key])}")
                 return
-        ctx.case("ko_c08_sdl", [cfg, p], cfg["W"] > 0 and 0 < p)
+        ctx.case("ko_c08_sdl", [cfg, key], cfg["W"] > 0 and 0 < p)
         with vsched.Session(seed + 5) as s:
             torch.manual_seed(100)
             l3 = sdl.build(cfg)
@@ -120,6 +131,34 @@ def check_sdl(ctx: Ctx, job):
                 cont3 = [("error", type(e).__name__)]
             del l3
             gc.collect()
+        with vsched.Session(seed + 6) as s:
+            torch.manual_seed(100)
+            l4 = sdl.build(cfg)
+            l4.load_state_dict(sd)
+            try:
+                s.begin_op()
+                l4.state_dict()  # an extra state_dict() between load and the first iter() must change nothing
+                cont4 = C01._consume(l4, len(stream) - p, s)
+            except Exception as e:
+                cont4 = [("error", type(e).__name__)]
+            del l4
+            gc.collect()
+        if cfg["kind"] == "map_rng":
+            # the worker seeds of LATER epochs come from the loading process' ambient RNG (a fresh base seed per
+            # iterator), not from the checkpoint: only the resumed epoch is comparable
+            def _first_epoch(c):
+                out = []
+                for o in c:
+                    out.append(o)
+                    if o[0] != "item":
+                        break
+                return out
+            conts = [_first_epoch(c) for c in conts]
+            cont3, cont4 = _first_epoch(cont3), _first_epoch(cont4)
+        if cont4 != conts[0] and cfg.get("sampler") not in ("shuffle",):
+            d = C01._first_diff(cont4, conts[0])
+            ctx.fail("C08:state_dict_after_load_perturbs", job, f"load (position {p}); state_dict(); iterate: +{d}: {cont4[d:d+3]} vs {conts[0][d:d+3]} without the state_dict() call")
+            return
         if cont3 != conts[0] and cfg.get("sampler") not in ("shuffle",):
             d = C01._first_diff(cont3, conts[0])
             ctx.fail("C08:reload_same_object_differs", job, f"load; iter(); load (same dict, position {p}); iterate: +{d}: {cont3[d:d+3]} vs {conts[0][d:d+3]} when loaded into a fresh loader")
@@ -288,6 +327,8 @@ def run(ctx: Ctx):
         cfg = sdl.gen_cfg(ctx.rng)
         if sdl.is_iter(cfg) and ctx.rng.random() < 0.3:
             cfg["kind"] = "iter_inplace"
+        if not sdl.is_iter(cfg) and cfg["W"] > 0 and ctx.rng.random() < 0.4:
+            cfg["kind"] = "map_rng"  # items drawn from the per-worker RNG: reloading must reproduce them
         jobs.append(("sdl", {"cfg": cfg, "seed": ctx.rng.randrange(1 << 30)}))
     for i in range(ctx.n(120, 2400)):
         if i % 4 == 0:
